@@ -5,10 +5,13 @@ prop, build, frm, count = sys.argv[1], sys.argv[2], int(sys.argv[3]), int(sys.ar
 tier = sys.argv[5] if len(sys.argv) > 5 else "quick"
 NW = 8 if build == "san" else 16
 os.makedirs("/tmp/sigs", exist_ok=True)
-procs = [subprocess.Popen(["/verif/build/%s/adaptasim" % build, "search", "--prop", prop, "--tier", tier, "--from", str(frm + j), "--step", str(NW), "--count", str((count + NW - 1) // NW)], stdout=subprocess.PIPE, text=True) for j in range(NW)]
+import tempfile
+outs = [tempfile.TemporaryFile("w+") for j in range(NW)]     # files, not pipes: workers must never block on a reader
+procs = [subprocess.Popen(["/verif/build/%s/adaptasim" % build, "search", "--prop", prop, "--tier", tier, "--from", str(frm + j), "--step", str(NW), "--count", str((count + NW - 1) // NW)], stdout=outs[j], text=True) for j in range(NW)]
 cnt = collections.Counter(); st = collections.Counter(); samples = {}
-for p in procs:
-    for l in p.stdout:
+for j, p in enumerate(procs):
+    p.wait(); outs[j].seek(0)
+    for l in outs[j]:
         if not l.startswith("{"): continue
         j = json.loads(l)
         if j["type"] == "summary":
